@@ -143,6 +143,16 @@ CHECKS = {
        "with the serial build and done-list order (a run-time sortedness invariant) are NOT decided.",
   note="trusted: allow-list of memory/codec functions; three documented environment inputs (each with its reason)",
   technique="static analysis: effect confinement over the slot-resolved call graph, who-may-write and must-precede rules on LLVM IR"),
+ "C03": dict(
+  text="The invariants are predicates over image bytes (value-level); decided are the structural checks the writer relies "
+       "on: K1-contract (every compressing do_block implementation, through its static helpers, returns a positive size "
+       "only where it is not larger than the input -- no block stored larger than its input), K7 (all ~50 narrowing stores "
+       "into on-disk fields on the writer path: range-proven, covered by a re-verified guard provider -- directory header "
+       "run limits with the exact 256-entry bound and +-32767 inode delta, id count, name length, device number, "
+       "timestamps -- or a reasoned exception), K13-padding (remainder by cfg->devblksize), K1-metablock (8 KiB limit, "
+       "uncompressed fallback). Sortedness, dense inode numbering, index placement, reference resolution: not decided.",
+  note="trusted: the table of exceptions ('would need 2^32 entries in memory' class) in sa/k7.py",
+  technique="static analysis: provenance-based range proofs (guards, clamps, tag-mediated guards, bit widths) and return-value classification on LLVM IR"),
 }
 
 NA_DEFAULT = "rules designed in DESIGN.md, not implemented yet (work in progress)"
